@@ -1,5 +1,6 @@
 // irflow: abstract interpreter — see interp.h
 #include "interp.h"
+#include "norm.h"
 #include "llvm/IR/IntrinsicInst.h"
 #include "llvm/IR/InlineAsm.h"
 #include "llvm/IR/Constants.h"
@@ -707,6 +708,7 @@ Interp::Result Interp::run(Function &Fn, const std::vector<VV> &args) {
       for (auto &I : *BB) {
         if (isa<PHINode>(I)) continue;
         if (++steps > maxSteps) { err("step limit"); broken = true; stopHere = true; break; }
+        if ((steps & 0xFFFF) == 0 && std::chrono::steady_clock::now() > g_deadline) { err("time limit during interpretation"); broken = true; stopHere = true; break; }
         if (monitor) touch(I);
         if (auto *Br = dyn_cast<BranchInst>(&I)) {
           if (Br->isUnconditional()) { next = Br->getSuccessor(0); break; }
